@@ -93,7 +93,12 @@ func (s *Set[T]) forceSetupOrdered() {
 	fun.Invariant.Ok(s.list == nil)
 	s.list = &List[T]{}
 	for item := range s.hash {
-		s.list.PushBack(item)
+		// index the new element (as AddCheck does for ordered
+		// sets): otherwise deleting the item later removes it from
+		// the hash but leaves it in the list.
+		elem := NewElement(item)
+		s.list.Back().Append(elem)
+		s.hash[item] = elem
 	}
 }
 
